@@ -292,6 +292,12 @@ def _identity_problem(job):
         "endpoint_kwargs": dict(endpoint_kwargs={**base["endpoint_kwargs"], "deadend_end": not base["endpoint_kwargs"].get("deadend_end", False)}),
         "applied_filters": dict(applied_filters=base["applied_filters"] + [dict(name="path_length", args=(), kwargs=dict(min_length=3))]),
     }
+    # an int and the equal float are different generator arguments (gen_dfs reads a float as a proportion of the cells)
+    for k_, v_ in job["kwargs"].items():
+        if isinstance(v_, (int, float)) and not isinstance(v_, bool) and float(v_) == int(v_):
+            other = float(v_) if isinstance(v_, int) else int(v_)
+            variations[f"maze_ctor_kwargs[{k_}] as {type(other).__name__}"] = dict(maze_ctor_kwargs={**job["kwargs"], k_: other})
+            break
     base_mc = dict(base)
     for field, ch in variations.items():
         if ch is None:
@@ -368,8 +374,8 @@ def _cfg_of(job):
 def _identity_configs():
     out = []
     eps = [{}, dict(deadend_start=True, endpoints_not_equal=True, deadend_end=False), dict(allowed_start=[[0, 0], [1, 1]], allowed_end=[[2, 2]], endpoints_not_equal=True, except_when_invalid=True, deadend_start=False)]
-    kws = {"gen_dfs": [dict(), dict(accessible_cells=7, max_tree_depth=3, do_forks=False)], "gen_wilson": [dict()], "gen_percolation": [dict(p=0.25)],
-           "gen_dfs_percolation": [dict(p=0.5, accessible_cells=5)], "gen_prim": [dict(do_forks=False, start_coord=[0, 1])]}
+    kws = {"gen_dfs": [dict(), dict(accessible_cells=7, max_tree_depth=3, do_forks=False), dict(accessible_cells=1.0, max_tree_depth=2)], "gen_wilson": [dict()],
+           "gen_percolation": [dict(p=0.25)], "gen_dfs_percolation": [dict(p=0.5, accessible_cells=5), dict(p=1.0)], "gen_prim": [dict(do_forks=False, start_coord=[0, 1])]}
     fls = [[], [["path_length", [], {"min_length": 3}], ["remove_duplicates", [], {"minimum_difference_connection_list": 2, "minimum_difference_solution": None}]], [["truncate_count", [5], {}]]]
     k = 0
     for gen in GENS:
